@@ -287,6 +287,7 @@ fn find_fault(st: &mut SysState, path: usize, op: Op, index: u64) -> Option<Faul
             st.fault_fired.push((name.clone(), format!("{:?}@{:?}#{}", a, op, index)));
             let kind: &'static str = match &a {
                 FaultAction::Errno(_) if op == Op::Read => "fault:ReadErrno",
+                FaultAction::Errno(_) if op == Op::Unlink => "fault:UnlinkErrno",
                 FaultAction::Errno(_) => "fault:WriteErrno",
                 FaultAction::Short(_) => "fault:ShortWrite",
                 FaultAction::PartialThenErrno(..) => "fault:PartialWriteThenErrno",
@@ -838,6 +839,11 @@ pub unsafe extern "C" fn unlink(path: *const c_char) -> c_int {
             set_errno(libc::EIO);
             return -1;
         }
+        if let Some(FaultAction::Errno(e)) = find_fault(st, id, Op::Unlink, 0) {
+            push_event(st, SysEvent { op: Op::Unlink, path: id, fd: -1, a: 0, b: 0, ret: -1, errno: e, data: None });
+            set_errno(e);
+            return -1;
+        }
         let r = libc::syscall(libc::SYS_unlink, path) as c_int;
         let errno = if r < 0 { get_errno() } else { 0 };
         push_event(st, SysEvent { op: Op::Unlink, path: id, fd: -1, a: 0, b: 0, ret: r as i64, errno, data: None });
@@ -856,6 +862,11 @@ pub unsafe extern "C" fn unlinkat(dirfd: c_int, path: *const c_char, flags: c_in
         let id = st.path_id(&p);
         if st.crashed && st.paths[id].in_sandbox {
             set_errno(libc::EIO);
+            return -1;
+        }
+        if let Some(FaultAction::Errno(e)) = find_fault(st, id, Op::Unlink, 0) {
+            push_event(st, SysEvent { op: Op::Unlink, path: id, fd: -1, a: flags as i64, b: 0, ret: -1, errno: e, data: None });
+            set_errno(e);
             return -1;
         }
         let r = libc::syscall(libc::SYS_unlinkat, dirfd as c_long, path, flags as c_long) as c_int;
